@@ -11,6 +11,9 @@ module D = Drv_backend
 
 let msg_key m = s_of_msg m
 let sorted_msgs ms = L.sort compare (L.map msg_key ms)
+(* markers of OTHER peers reach a peer subscribed to '#' after its own drain and are dequeued (and capped) by the
+   broker before the next operation, which may change that peer's subscriptions: their QoS is not compared *)
+let is_marker m = match m.m_topic with a :: b :: _ -> int_of_byte a = 0x6d && int_of_byte b = 0x2f | _ -> false
 let strip_qos m = S.concat "," [hex_of_bytes m.m_topic; hex_of_bytes m.m_payload; s_of_bool m.m_retain]
 
 let run path =
@@ -19,6 +22,7 @@ let run path =
   let inc : (int, int) Hashtbl.t = Hashtbl.create 16 in
   let conn c = n_of_int (c * 1000 + (try Hashtbl.find inc c with Not_found -> 0)) in
   let last_setup = ref None in
+  let wills : (int, message) Hashtbl.t = Hashtbl.create 16 in
   let bad_scen = ref false in
   let fail kind k fmt = Printf.ksprintf (fun s -> if not !bad_scen then incr fails; bad_scen := true;
                                           Printf.printf "propfail %s %s %s\n" k kind s) fmt in
@@ -33,14 +37,26 @@ let run path =
     | (RMsg m, st') -> st := st'; drain_model c temp (m :: acc)
     | _ -> L.rev acc in
   L.iter (fun line -> match words line with
-      | ["boxstart"; k] -> incr scen; st := init (n_of_int 100); Hashtbl.reset inc; bad_scen := false
+      | ["boxstart"; k] -> incr scen; st := init (n_of_int 100); Hashtbl.reset inc; Hashtbl.reset wills; bad_scen := false
+      | ["box"; k; "will"; c; m] -> Hashtbl.replace wills (int_of_string c) (msg_of_s m)
       | ["boxfail"; k; _] | "boxfail" :: k :: _ ->
         incr diffs; Printf.printf "diff %s scenario did not complete: %s\n" k line
       | ["box"; k; "setup"; c; id; clean] ->
         incr cases;
         let c = int_of_string c in
         Hashtbl.replace inc c ((try Hashtbl.find inc c with Not_found -> 0) + 1);
-        last_setup := Some (apply k (OSetup (conn c, bytes_of_hex id, clean = "1")) "*")
+        let r = apply k (OSetup (conn c, bytes_of_hex id, clean = "1")) "*" in
+        (match r with
+         | RSetupWait old ->
+           (* takeover: the broker closes the old connection, which publishes its will and terminates,
+              then the newcomer's Setup continues *)
+           let oldpeer = int_of_n old / 1000 in
+           (match Hashtbl.find_opt wills oldpeer with
+            | Some wm -> ignore (apply k (OPublish (old, wm, [])) "ok"); Hashtbl.remove wills oldpeer
+            | None -> ());
+           ignore (apply k (OTerminate old) "ok"); ignore (apply k (OMarkClosed old) "ok");
+           last_setup := Some (apply k (OSetupEnd false) "*")
+         | _ -> last_setup := Some r)
       | ["boximpl"; k; res] ->
         (match !last_setup with
          | Some (RSetup resumed) ->
@@ -60,6 +76,7 @@ let run path =
         ignore (apply k (OPublish (conn (int_of_string c), msg_of_s m, [])) "ok")
       | ["box"; k; "disc"; c] ->
         incr cases;
+        Hashtbl.remove wills (int_of_string c);
         let c = conn (int_of_string c) in
         ignore (apply k (OTerminate c) "ok"); ignore (apply k (OMarkClosed c) "ok")
       | ["boxrecv"; k; c; tq; sq] ->
@@ -74,7 +91,8 @@ let run path =
           fail "delivery" k "peer %s: model t=%s s=%s  received t=%s s=%s" (D.s_of_n c) (D.s_of_msgs mt) (D.s_of_msgs ms) tq sq
         else if L.sort compare (L.map strip_qos mt) <> L.sort compare (L.map strip_qos it) then
           fail "retained" k "peer %s: model t=%s  received t=%s" (D.s_of_n c) (D.s_of_msgs mt) tq
-        else if L.map msg_key ms <> L.map msg_key is || sorted_msgs mt <> sorted_msgs it then
+        else if (let nomark l = L.filter (fun m -> not (is_marker m)) l in
+                 L.map msg_key (nomark ms) <> L.map msg_key (nomark is) || sorted_msgs (nomark mt) <> sorted_msgs (nomark it)) then
           fail "qos" k "peer %s: model t=%s s=%s  received t=%s s=%s" (D.s_of_n c) (D.s_of_msgs mt) (D.s_of_msgs ms) tq sq
       | _ -> ()) (read_lines path);
   Printf.printf "done cases=%d diffs=%d propfails=%d distinct=%d\n" !cases !diffs !fails !scen
